@@ -18,4 +18,4 @@ git apply "$SEED/patch.diff"
 cd /repo && git apply "$SEED/patch.diff" || { echo "patch does not apply to /repo"; exit 3; }
 cd /verif
 for c in "$@"; do echo "== ./check $c quick (patched /repo)"; ./check $c quick 2>&1 | grep -E "^(VIOLATION|OK|KNOWN)|first failing|broken:" | cut -c1-700 | head -6; done
-git -C /repo checkout -- . ; git -C /repo status --short | head -3
+git -C /repo checkout -- . ; git -C /repo clean -fdq -- throttlecrab/src throttlecrab-server/src ; git -C /repo status --short | head -3
